@@ -144,22 +144,30 @@ public:
       // max size reached or invalid key/value. Returning empty TraceState
       return TraceState::GetDefault();
     }
+    std::string unused;
+    const bool key_exists = kv_properties_->GetValue(key, unused);
+    // a key that is not yet present is refused (unchanged copy) when the list is already full
+    const bool set_key = key_exists || curr_size < kMaxKeyValuePairs;
     auto allocate_size = curr_size;
-    if (curr_size < kMaxKeyValuePairs)
+    if (set_key && !key_exists)
     {
       allocate_size += 1;
     }
     nostd::shared_ptr<TraceState> ts(new TraceState(allocate_size));
-    if (curr_size < kMaxKeyValuePairs)
+    if (set_key)
     {
       // add new field first
       ts->kv_properties_->AddEntry(key, value);
     }
-    // add rest of the fields.
-    kv_properties_->GetAllEntries([&ts](nostd::string_view key, nostd::string_view value) {
-      ts->kv_properties_->AddEntry(key, value);
-      return true;
-    });
+    // add rest of the fields, the previous entry for this key is replaced by the new one
+    kv_properties_->GetAllEntries(
+        [&ts, &key, &set_key](nostd::string_view e_key, nostd::string_view e_value) {
+          if (!set_key || key != e_key)
+          {
+            ts->kv_properties_->AddEntry(e_key, e_value);
+          }
+          return true;
+        });
     return ts;
   }
 
